@@ -431,4 +431,32 @@ theorem SameCore.rrun {a b : Cache K V} (h : SameCore a b) (P0 : K → OmProg K 
     rw [Cache.rstep_noLog]
     exact (SameCore.mach.rstep (fun _ => P0) fuel (n := 0) h op).1
 
+/-! callbacks whose calls are never lookups (e.g. the self-priming loader) cannot nest: the depth is irrelevant -/
+
+/-- no call of the strategy is an item get / get / setdefault, whatever the earlier calls answered -/
+inductive OmProg.NoLookup : OmProg K V → Prop where
+  | done (r : OmRes V) : OmProg.NoLookup (.done r)
+  | call (op : Op K V) (next : Out K V Unit → OmProg K V) (hop : op.isLookup = false)
+      (hn : ∀ o, OmProg.NoLookup (next o)) : OmProg.NoLookup (.call op next)
+
+theorem Mach.stepWith_nonlookup {C : Type} (M : Mach K V C) (g g' : C → K → C × Out K V C) (c : C) {op : Op K V}
+    (hop : op.isLookup = false) : M.stepWith g c op = M.stepWith g' c op := by
+  cases op <;> first | rfl | simp [Op.isLookup] at hop
+
+theorem runProg_noLookup {C : Type} (M : Mach K V C) (g g' : C → K → C × Out K V C) {p : OmProg K V}
+    (h : p.NoLookup) (c : C) : runProg (M.stepWith g) c p = runProg (M.stepWith g') c p := by
+  induction h generalizing c with
+  | done r => rfl
+  | call op next hop hn ih =>
+    simp only [runProg, M.stepWith_nonlookup g g' c hop]
+    exact ih _ _
+
+/-- for such callbacks any depth >= 1 gives the same `__getitem__` -/
+theorem Mach.rget_depth_irrelevant {C : Type} (M : Mach K V C) (P : List K → K → OmProg K V)
+    (hP : ∀ lg k, (P lg k).NoLookup) (n : Nat) : M.rget P (n + 1) = M.rget P 1 := by
+  funext c k
+  simp only [Mach.rget]
+  rw [runProg_noLookup M (M.rget P n) (M.rget P 0) (hP _ _)]
+  rfl
+
 end C02
